@@ -38,6 +38,8 @@ class Ctx(object):
         self.notes = []
         self.engine_unsound = False
         self._known = self._load_known()
+        import shutil
+        shutil.rmtree(os.path.join(ROOT, 'replays', pid), ignore_errors=True)
         self._printed = set()
         self._fam_reports = {}
         self.replay_errors = []
